@@ -74,6 +74,10 @@ type recWitness struct {
 	err   error
 	n     int
 	hist  []recUpdate // every submission, in order (chains look for the FIRST submission of a size: later ones are refreshes)
+	// third, when set, is called once before the next submission is passed on: a third party (another feeder, a bastion request) moves the
+	// witness between the feeder's look at it and its submission. That submission is then stale by construction: it is passed on, its
+	// refusal goes back to the feeder, and it is not recorded.
+	third func()
 }
 
 type recUpdate struct {
@@ -87,6 +91,14 @@ func (r *recWitness) GetLatestCheckpoint(ctx context.Context, id string) ([]byte
 	return r.inner.GetLatestCheckpoint(ctx, id)
 }
 func (r *recWitness) Update(ctx context.Context, id string, old uint64, cp []byte, proof [][]byte) ([]byte, error) {
+	r.mu.Lock()
+	third := r.third
+	r.third = nil
+	r.mu.Unlock()
+	if third != nil {
+		third()
+		return r.inner.Update(ctx, id, old, cp, proof)
+	}
 	b, err := r.inner.Update(ctx, id, old, cp, proof)
 	r.mu.Lock()
 	r.old, r.proof, r.cp, r.err = old, proof, cp, err
@@ -385,6 +397,28 @@ func tileMain(args []string) error {
 					from, to := sizes[j-1], sizes[j]
 					ev := tileEvent{E: "tile.proof", Reqs: []string{}, Run: fmt.Sprintf("%s/%s/chain%d", *kind, tag, ci), From: from, To: to}
 					if okSoFar {
+						// every other step of at least two leaves: a third party takes the witness half of the way between the feeder's look at
+						// it and its submission (the feeder is refused as stale and has to come again from where the witness now is)
+						if j%2 == 0 && to-from >= 2 && *kind != "serverless" {
+							mid := from + (to-from)/2
+							rm := l.Trees[0].Root(mid)
+							text := ref.CheckpointText(l.Origin, mid, rm[:], "")
+							cpMid := []byte(text + "\n" + l.Key.SignLegacy(text))
+							pfMid := l.Trees[0].ConsistencyProof(from, mid)
+							oldFrom := from
+							rw.mu.Lock()
+							rw.third = func() {
+								if _, err := wit.Update(context.Background(), l.ID, oldFrom, cpMid, pfMid); err != nil {
+									evMu.Lock()
+									firstErr = fmt.Errorf("third party could not move the witness %d -> %d: %v", oldFrom, mid, err)
+									evMu.Unlock()
+								}
+							}
+							rw.mu.Unlock()
+							ev.Run += "/third-party"
+							from = mid
+							ev.From = mid
+						}
 						publish(to)
 						got, old, pf, e := waitFor(to)
 						r1, r2 := rootOf(from), rootOf(to)
